@@ -186,7 +186,9 @@ def fmt_agree(ctx, lexpr):
     if dflt is None:
         r.anchor_missing("<print::Options as Default>::default")
         return
-    S0 = sim.Sim([lexpr])
+    # the literal may live in a constructor of the options type that `default()` calls (`Options::new()`)
+    S0 = sim.Sim([lexpr], inline=lambda a, b: b.crate == lexpr.name and b.kind != "closure"
+                 and (b.self_ty or "").startswith("print::Options") or b.path.startswith("print::Options::"))
     ps = S0.run(dflt)
     if len(ps) != 1 or not isinstance(ps[0].ret, Adt):
         r.anchor_missing("print::Options::default() is not a single constant aggregate")
